@@ -88,7 +88,7 @@ REGISTRY['C15'] = {
     'level_text': 'Proxy side on the real text: a signer response is accepted exactly when a request is open, the nonce equals it, a signer is associated and the response is genuine under that signer\'s ID key (iff); one open request at a time; validate of signed request/response = CMS valid AND clear text equals signed content (iff); apply sets/replaces the associated signer as a whole and removes a delivered child response. TA objects: republish gives manifest and CRL one number (the next one, or the operator override), the same window, the CRL from the TA revocation list and a manifest of the CRL plus exactly the issued certificates, and refuses a certificate of another key; add_issued / revoke_issued revoke what they replace. Signer side, the whole of process_signer_request verbatim: only a validated request is processed; every child request in it is answered under that child\'s handle with exactly one response per requested key, of the requested kind (a later request of the same child replaces an earlier one), and with nothing that belongs to another child; the exchange records the request and carries its nonce. Delivery: the SignerResponseReceived apply arm files every response under the child it is addressed to and under no other, closes the request it answers, keeps everything else, keeps the signer identity and closes the open signer request (both by-value HashMap loops under R19, nested loop invariants, unbounded).',
     'level_note': 'CMS validation, JSON decoding and PartialEq of payload types are assumed externals; mft_number_override assumed increasing (A7).',
     'design_ref': 'DESIGN.md section 10.4 (as built) and section 5 / C15',
-    'not_covered': ['content of an issued certificate / issuance response (make_issued_cert, IssuanceResponse::new are assumed externals)', 'apply arms ChildAdded / ChildRequestAdded', 'manifest/CRL numbers only increase across re-initialisation histories and operator overrides (republish takes the override as given)'],
+    'not_covered': ['content of an issued certificate / issuance response (make_issued_cert, IssuanceResponse::new are assumed externals)', 'manifest/CRL numbers only increase across re-initialisation histories and operator overrides (republish takes the override as given)'],
 }
 REGISTRY['C17'] = {
     'v': ['c17_validate', 'c17_categorise'],
